@@ -11,6 +11,7 @@ import PyodaProofs.C07Segmented
 import PyodaProofs.C07SegmentedInstances
 import PyodaProofs.C07Calendar
 import PyodaProofs.C07Instant
+import PyodaProofs.GenAgreeC07N
 
 #print axioms Pyoda.C07.parseDigits_leftPad
 #print axioms Pyoda.C07.parseDigits_pad2
@@ -124,3 +125,31 @@ import PyodaProofs.C07Instant
 #print axioms Pyoda.C07.isoInstant_delimited
 #print axioms Pyoda.C07.isoInstantPattern_roundtrip
 #print axioms Pyoda.C07.isoInstant_generic_roundtrip
+#print axioms Pyoda.GenAgree.C07N.gen_FormatHelper_leftPadNonNegative_eq
+#print axioms Pyoda.GenAgree.C07N.gen_FormatHelper_leftPadNonNegative_dom
+#print axioms Pyoda.GenAgree.C07N.gen_FormatHelper_format2DigitsNonNegative_eq
+#print axioms Pyoda.GenAgree.C07N.gen_FormatHelper_format4DigitsValueFits_eq
+#print axioms Pyoda.GenAgree.C07N.gen_FormatHelper_leftPad_eq
+#print axioms Pyoda.GenAgree.C07N.gen_FormatHelper_appendFraction_eq
+#print axioms Pyoda.GenAgree.C07N.gen_FormatHelper_formatInvariant_eq
+#print axioms Pyoda.GenAgree.C07N.gen_FormatHelper_appendFractionTruncate_eq
+#print axioms Pyoda.GenAgree.C07N.gen_Cursor_length_eq
+#print axioms Pyoda.GenAgree.C07N.gen_Cursor_value_eq
+#print axioms Pyoda.GenAgree.C07N.gen_Cursor_index_eq
+#print axioms Pyoda.GenAgree.C07N.gen_Cursor_current_eq
+#print axioms Pyoda.GenAgree.C07N.gen_Cursor_hasMoreCharacters_eq
+#print axioms Pyoda.GenAgree.C07N.gen_Cursor_move_eq
+#print axioms Pyoda.GenAgree.C07N.gen_Cursor_moveNext_eq
+#print axioms Pyoda.GenAgree.C07N.gen_Cursor_movePrevious_eq
+#print axioms Pyoda.GenAgree.C07N.gen_Cursor_parseDigits_eq
+#print axioms Pyoda.GenAgree.C07N.gen_Cursor_parseDigits_model
+#print axioms Pyoda.GenAgree.C07N.gen_Cursor_parseFraction_eq
+#print axioms Pyoda.GenAgree.C07N.gen_Cursor_parseFraction_model
+#print axioms Pyoda.GenAgree.C07N.gen_Cursor_matchText_eq
+#print axioms Pyoda.GenAgree.C07N.gen_Cursor_matchText_rest
+#print axioms Pyoda.GenAgree.C07N.gen_Cursor_getDigit_eq
+#print axioms Pyoda.GenAgree.C07N.gen_Cursor_remainder_eq
+#print axioms Pyoda.GenAgree.C07N.gen_Cursor_peekNext_eq
+#print axioms Pyoda.GenAgree.C07N.gen_StringBuilder_length_eq
+#print axioms Pyoda.GenAgree.C07N.gen_StringBuilder_getitem_eq
+#print axioms Pyoda.GenAgree.C07N.gen_StringBuilder_toString_eq
